@@ -31,21 +31,28 @@ structure Cfg where
   commitOnSuccess : Bool
   /-- `_finish_run` catches `(Exception, KeyboardInterrupt)` like `_run` does (f3b0474; before: `Exception` only) -/
   catchKbdInCallback : Bool
+  /-- `_run` and `_finish_run` catch every `BaseException` (9a3aae7; before: `(Exception, KeyboardInterrupt)` at most) -/
+  catchAllBase : Bool
   deriving Repr, DecidableEq
 
 def Cfg.pinned : Cfg :=
-  { writeAfterGate := false, clearOnFail := false, guardHit := false, commitOnSuccess := false, catchKbdInCallback := false }
+  { writeAfterGate := false, clearOnFail := false, guardHit := false, commitOnSuccess := false,
+    catchKbdInCallback := false, catchAllBase := false }
 /-- /repo after fix 0699958 and before b54ba0f (the tree the findings KF-C05-3/4/5 were made on) -/
 def Cfg.repaired : Cfg :=
-  { writeAfterGate := true, clearOnFail := true, guardHit := true, commitOnSuccess := false, catchKbdInCallback := false }
-/-- the cache records a processed result (b54ba0f = fixes/C05-commit-cache-on-success.patch); `kbd` says whether the
-done-callback treats KeyboardInterrupt as a failure -/
-def Cfg.commit (kbd : Bool) : Cfg :=
-  { writeAfterGate := true, clearOnFail := true, guardHit := true, commitOnSuccess := true, catchKbdInCallback := kbd }
+  { writeAfterGate := true, clearOnFail := true, guardHit := true, commitOnSuccess := false,
+    catchKbdInCallback := false, catchAllBase := false }
+/-- the cache records a processed result (b54ba0f); `kbd`: the done-callback treats KeyboardInterrupt as a failure
+(f3b0474); `all`: every BaseException ending the function fails the run, locally and in the callback (9a3aae7) -/
+def Cfg.commit (kbd all : Bool) : Cfg :=
+  { writeAfterGate := true, clearOnFail := true, guardHit := true, commitOnSuccess := true,
+    catchKbdInCallback := kbd, catchAllBase := all }
 /-- /repo after b54ba0f, before f3b0474 -/
-def Cfg.proposed : Cfg := Cfg.commit false
-/-- /repo as it is now (b54ba0f + f3b0474) -/
-def Cfg.now : Cfg := Cfg.commit true
+def Cfg.proposed : Cfg := Cfg.commit false false
+/-- /repo after f3b0474, before 9a3aae7 -/
+def Cfg.kbdOnly : Cfg := Cfg.commit true false
+/-- /repo as it is now (b54ba0f + f3b0474 + 9a3aae7) -/
+def Cfg.now : Cfg := Cfg.commit true true
 
 inductive Outcome
   | ok        -- returns a value
@@ -110,7 +117,9 @@ def runLike (cfg : Cfg) (beh : Nat → Outcome) (useCache : Bool) (n : N) (onExe
         | .ok => (N.succeed cfg useCache n2 n.inp, .ret (some n.inp))
         | .exc => (N.fail cfg n2, .raised)
         | .kbd => (N.fail cfg n2, .interrupted)
-        | .fatal => ({ n2 with running := true }, .fatal)       -- not caught: no status change after `running = True`
+        | .fatal =>
+          if cfg.catchAllBase then (N.fail cfg n2, .fatal)      -- caught, processed as a failure, re-raised
+          else ({ n2 with running := true }, .fatal)            -- not caught: no status change after `running = True`
         | .procbad => (N.fail cfg n2, .procraised)
 
 def step (cfg : Cfg) (beh : Nat → Outcome) (useCache : Bool) (n : N) : Op → N × R
@@ -127,9 +136,11 @@ def step (cfg : Cfg) (beh : Nat → Outcome) (useCache : Bool) (n : N) : Op → 
       | .exc => (N.fail cfg n1, .unit)                           -- re-raised inside the callback, swallowed by the future
       | .procbad => (N.fail cfg n1, .unit)
       | .kbd =>                                                   -- re-raised either way: it leaves the callback
-        if cfg.catchKbdInCallback then (N.fail cfg n1, .escaped)
+        if cfg.catchKbdInCallback || cfg.catchAllBase then (N.fail cfg n1, .escaped)
         else ({ n1 with running := false }, .escaped)             -- `except Exception` does not see it
-      | .fatal => ({ n1 with running := false }, .escaped)
+      | .fatal =>
+        if cfg.catchAllBase then (N.fail cfg n1, .escaped)
+        else ({ n1 with running := false }, .escaped)
   | .clearFailed => ({ n with failed := false }, .unit)
   | .cancel =>
     match n.jobs with
